@@ -108,7 +108,10 @@ def custom_objects():
     from .. import fwdtype  # noqa: F401  (registers the types)
     atoms = {"mc_num": lambda: schema.mc_num, "mc_text": lambda: schema.mc_text,
              "fwd(int)": lambda: fwdtype.wrap(schema.int), "fwd(str)": lambda: fwdtype.wrap(schema.str),
-             "int": lambda: schema.int, "str": lambda: schema.str}
+             "int": lambda: schema.int, "str": lambda: schema.str,
+             # a plain user subclass of a built-in type, undeclared and pinned, next to the built-in
+             "Port": lambda: fwdtype.PortSchema(), "Port(80)": lambda: fwdtype.PortSchema()(80),
+             "int(80)": lambda: schema.int(80)}
     shapes = {"{}": lambda x: x, "list({})": lambda x: schema.list(x), "list([{}])": lambda x: schema.list([x]),
               "dict(a: {})": lambda x: schema.dict({"a": x}), "any({}, none)": lambda x: schema.any(x, schema.none),
               "alias({})": lambda x: schema.alias("C", x)}
@@ -138,6 +141,45 @@ def custom_block(acc):
             acc.violation("C15|custom-types|not-equal-to-self-or-rebuild", case)
         if r is True and any(verdict(a, v) != verdict(b, v) for v in CUSTOM_PROBES):
             acc.violation("C15|custom-types|equal-but-verdicts-differ", case)
+
+
+def derivation_block(acc, tier):
+    """Deriving from a schema (make_required with and without keys, +, |, %) leaves the operand
+    equal to an independent build of its own declaration - equality is about declarations, and
+    the operand's declaration has not changed."""
+    from d42.utils import make_required
+    from ..terms import fp
+    from .. import model as M
+    for t in core(tier):
+        if t[0] != "dict" or t[1] is None:
+            continue
+        a, _ = try_build(t)
+        if a is None:
+            continue
+        keys = [k for k, _, _ in t[1]]
+        before = fp(a)
+        derived = []
+        for ks in [None] + [[k] for k in keys] + [keys]:
+            try:
+                derived.append(make_required(a) if ks is None else make_required(a, ks))
+            except Exception:  # noqa: BLE001
+                pass
+        for w in M.witnesses(t)[:2]:
+            try:
+                derived.append(a % w)
+            except Exception:  # noqa: BLE001
+                pass
+        try:
+            derived += [a + a, a | a]
+        except Exception:  # noqa: BLE001
+            pass
+        acc.count("comparisons", 2)
+        acc.count("operands_compared_after_deriving")
+        fresh, _ = try_build(t)
+        if fp(a) != before or eq3(a, fresh) is not True or eq3(fresh, a) is not True:
+            acc.violation(f"C15|operand-not-equal-to-rebuild-after-deriving-from-it|{cls(a)}",
+                          {"a": src(t), "b": src(t), "a_show": show(t), "b_show": show(t), "tier": tier,
+                           "derivation": True})
 
 
 def replay_custom(case):
@@ -186,6 +228,8 @@ def worker(shard, nshards, tier, seed):
     acc = Acc()
     if shard == 0:
         custom_block(acc)
+    if shard == 1 % nshards:
+        derivation_block(acc, tier)
     C = core(tier)
     built = []
     for t in C:
@@ -301,6 +345,10 @@ def run(tier, seed):
 def replay(case):
     if "custom_pair" in case:
         return replay_custom(case)
+    if case.get("derivation"):
+        acc = Acc()
+        derivation_block(acc, case.get("tier", "quick"))
+        return sorted(acc.viol)
     ta, tb = unsrc(case["a"]), unsrc(case["b"])
     a, _ = try_build(ta)
     b, _ = try_build(tb)
